@@ -114,8 +114,8 @@ use self::tfu::*;
         // WHOLE-TOUR CASE ONLY: the precondition `listed_ok` of replace_vehicle_by_dummy -- C10 "vehicle … listings are sorted
         // and match the stored tours", as far as that body needs it for the vehicle that goes: its type has an id list
         // (`vehicle_ids_grouped_and_sorted[&vehicle_type_id]`), which is sorted and holds the id (`binary_search(..).unwrap()`).
-        // Not derivable from rs_ok (sched_ok speaks about the uninterpreted listing sched_vehicles, not about the grouped id
-        // lists).  (The other precondition of replace_vehicle_by_dummy, tfu_pre for the nodes of the WHOLE tour -- C09 for the
+        // Not derivable from rs_ok (sched_ok says that the concatenation of the grouped id lists holds exactly the vehicles with a
+        // tour, once each -- not that a vehicle is in the list of ITS type, nor that the lists are sorted).  (The other precondition of replace_vehicle_by_dummy, tfu_pre for the nodes of the WHOLE tour -- C09 for the
         // unserved-passenger pair --, IS derived: lemma_whole_tour_case, from tfu_pre for the removed nodes above.)
         self.removes(segment, vehicle_idx) && self.whole_tour(segment, vehicle_idx) ==> self.listed_ok(vehicle_idx),
     ensures
@@ -208,12 +208,16 @@ use self::tfu::*;
         // modification): every vehicle that stays and was listed in the sorted id list of its type still is
         r is Ok ==> self.listings_kept(&r->Ok_0), // @obl C10.remove_segment.result_satisfies_the_schedule_invariants_again
         // listings (sched_ok: the listing is duplicate-free and matches the stored tours; at most 2^17 vehicles) and C09 (the costs
-        // cover the tours' costs) -- UNDER THE PREMISE A-listing = listing_exact(result), the first two of these conjuncts themselves:
-        // sched_vehicles is an UNINTERPRETED function of the schedule, so nothing about the listing of the result follows from the
-        // effect clauses; the number of vehicles and the cost sum ARE derived from it
+        // cover the tours' costs).  NO PREMISE any more: sched_vehicles is DEFINED (env/schedule_shim.vs: the grouped id lists of the
+        // network's vehicle types, concatenated in type order), so the listing of the result follows the grouped id lists, whose change
+        // is an effect clause -- unchanged in the partial case, one occurrence of the id taken out of the list of the provider's type in
+        // the whole-tour case (listing_follows, proved: lemma_listing_follows_holds) --, hence it is exact again (listing_exact:
+        // duplicate-free, lists exactly the vehicles that have a tour); the number of vehicles and the cost sum are derived from it
+        r is Ok ==> self.listing_follows(segment, vehicle_idx, &r->Ok_0) && listing_exact(&r->Ok_0), // @obl C10.remove_segment.result_satisfies_the_schedule_invariants_again
+        r is Ok ==> r->Ok_0.so_listing() && r->Ok_0.so_costs_cover(), // @obl C10.remove_segment.result_satisfies_the_schedule_invariants_again
+        // (the former premised forms of these clauses, implied by the two lines above; kept because slices/swaps_sem.vs stubs this
+        // function with them -- to be dropped when that stub has been synced)
         r is Ok && listing_exact(&r->Ok_0) ==> r->Ok_0.so_listing() && r->Ok_0.so_costs_cover(), // @obl C10.remove_segment.result_satisfies_the_schedule_invariants_again
-        // (a sufficient condition for A-listing in terms of the old listing: the listing of the result follows the grouped id lists,
-        // whose change is proved: unchanged in the partial case, one occurrence of the id taken out in the whole-tour case)
         r is Ok && self.listing_follows(segment, vehicle_idx, &r->Ok_0) ==> listing_exact(&r->Ok_0), // @obl C10.remove_segment.result_satisfies_the_schedule_invariants_again
         // magnitude costs <= 2^61: an invariant of the whole-tour case only (the costs shrink by the tour's costs); in the partial
         // case the shrunk tour may cost more than the old one (no triangle inequality is assumed): there the conjunct is the
@@ -221,7 +225,10 @@ use self::tfu::*;
         // (a sufficient condition in the partial case: the shrunk tour does not cost more than the old one)
         r is Ok && (self.whole_tour(segment, vehicle_idx) || r->Ok_0.tours@[vehicle_idx].costs <= self.tours@[vehicle_idx].costs)
             ==> r->Ok_0.costs <= self.costs && r->Ok_0.so_costs_small(), // @obl C10.remove_segment.result_satisfies_the_schedule_invariants_again
-        // the bundle as the next modification requires it
+        // the bundle as the next modification requires it (the costs premise: see above; in the whole-tour case it holds)
+        r is Ok && r->Ok_0.costs <= sched_cost_bound() ==> r->Ok_0.rs_ok(), // @obl C10.remove_segment.result_satisfies_the_schedule_invariants_again
+        r is Ok && self.whole_tour(segment, vehicle_idx) ==> r->Ok_0.rs_ok(), // @obl C10.remove_segment.result_satisfies_the_schedule_invariants_again
+        // (former premised form, implied by the line above; kept for the stub of slices/swaps_sem.vs)
         r is Ok && listing_exact(&r->Ok_0) && r->Ok_0.costs <= sched_cost_bound() ==> r->Ok_0.rs_ok(), // @obl C10.remove_segment.result_satisfies_the_schedule_invariants_again
 //@end
 
